@@ -1,6 +1,6 @@
 ------------------------------ MODULE JoinMech ------------------------------
 (* Mechanism model of a whole dictable.join / dictable.xor call, shaped like the code:           *)
-(* both sides are grouped by their key tuples (_listby, taken from MergeJoin.tla), the two group  *)
+(* both sides are grouped by their key tuples (_listby as in MergeJoin.tla)      , the two group  *)
 (* lists are merged by two cursors, every matched pair of groups is multiplied out l-major, key   *)
 (* columns are filled from the group key, the other columns from the rows, same-named non-key     *)
 (* columns by the mode.  Compared with the law level (JoinCalls!CallVerdict) only inside TLC.     *)
@@ -15,11 +15,19 @@
 EXTENDS JoinCalls, Order, FiniteSetsExt
 CONSTANT Variant
 
-MJ == INSTANCE MergeJoin WITH Variant <- "fixed", MaxRows <- 0, lkeys <- <<>>, rkeys <- <<>>, lgr <- <<>>, rgr <- <<>>,
-                              l <- 0, r <- 0, res <- <<>>, pc <- "done"
+\* _listby as in MergeJoin.tla (variant "fixed": rows whose keys rank equal under cmp form one run):
+\* stable sort of the (key, row number) pairs by cmp, then run-length grouping; a run shows its latest key
+GPairCmp(p, q) == LET cc == CmpModel(p[1], q[1]) IN IF cc # 0 THEN cc ELSE Sign(p[2] - q[2])
+RECURSIVE GRuns(_, _, _)
+GRuns(ps, k, acc) ==
+    IF k > Len(ps) THEN acc
+    ELSE IF acc # <<>> /\ (PyEq(ps[k][1], Last(acc)[1]) \/ CmpModel(ps[k][1], Last(acc)[1]) = 0)
+         THEN GRuns(ps, k + 1, Front(acc) \o <<<<ps[k][1], Last(acc)[2] \o <<ps[k][2]>>>>>>)
+         ELSE GRuns(ps, k + 1, acc \o <<<<ps[k][1], <<ps[k][2]>>>>>>)
+GListby(keys) == GRuns(StableSort(GPairCmp, [i \in 1..Len(keys) |-> <<keys[i], i>>]), 1, <<>>)
 
 KeyTup(row, ks) == VTup(Key(row, ks))                                       \* what self[by] yields for a row
-Groups(t, ks) == MJ!Listby([i \in 1..NRows(t) |-> KeyTup(t.rows[i], ks)])   \* runs <<key, <<row numbers>>>> in cmp order
+Groups(t, ks) == GListby([i \in 1..NRows(t) |-> KeyTup(t.rows[i], ks)])   \* runs <<key, <<row numbers>>>> in cmp order
 RightGroups(x, y, lk, rk, alias) ==
     CASE Variant = "plain" -> Groups(y, rk)
       [] Variant = "reuse_guarded" -> IF alias /\ lk = rk THEN Groups(x, lk) ELSE Groups(y, rk)
